@@ -25,13 +25,17 @@ def spec(tier, seed):
     q = tier == "quick"
     inst = []
     for (o, n, a, b) in (rotate(HEADERS, seed, 6) if q else HEADERS):
-        inst.append(Instance("c12i_hdr_o%d_n%d_%d_%d" % (o, n, a, b), "parser", "t_write_header(%d, %d, %d, %d)" % (o, n, a, b), unwind=50, unwindset={"memcmp.0": 6},
-                             stubs=[FROM_UTF8_STUB], mem_gb=6, timeout_s=1200, sub="C12 (i) hunk header round trip", params=dict(old_start=o, new_start=n, old_lines=a, new_lines=b)))
+        inst.append(Instance("c12i_hdr_o%d_n%d_%d_%d" % (o, n, a, b), "parser", "t_write_header(%d, %d, %d, %d)" % (o, n, a, b), unwind=26, unwindset={"memcmp.0": 6},
+                             stubs=[FROM_UTF8_STUB], mem_gb=14, timeout_s=1500, sub="C12 (i) hunk header round trip", params=dict(old_start=o, new_start=n, old_lines=a, new_lines=b)))
     for (ops, o, n, a, b) in (BODIES[:5] if q else BODIES):
         k = len(ops)
         arr = ", ".join("b'%s'" % c for c in ops)
         nm = "c12ii_%s_o%d%s%s" % (ops.replace(" ", "c").replace("-", "m").replace("+", "p"), o, "_nnlo" if a else "", "_nnln" if b else "")
-        inst.append(Instance(nm, "parser", "t_write_body::<%d>([%s], %d, %d, %s, %s)" % (k, arr, o, n, str(a).lower(), str(b).lower()), unwind=60,
+        nold = sum(1 for c in ops if c != "+")
+        nnew = sum(1 for c in ops if c != "-")
+        hdr = "@@ -%d,%d +%d,%d @@" % (o if nold == 0 else o + 1, nold, n if nnew == 0 else n + 1, nnew)
+        inst.append(Instance(nm, "parser", "t_write_body::<%d>([%s], %d, %d, %s, %s, %s)" % (k, arr, o, n, str(a).lower(), str(b).lower(), bytes_lit(hdr.encode())), unwind=60,
+                             unwind_fns={"libpatch::patch::unified::parser::parse_hunk.0": k + 2},
                              unwindset={"memcmp.0": 6}, stubs=[FROM_UTF8_STUB], mem_gb=12, timeout_s=2400, sub="C12 (ii) hunk body round trip, symbolic bytes (4-letter alphabet)",
                              must_cover=["round trip done"], params=dict(edit_script=ops, start=o, no_newline_old_last=a, no_newline_new_last=b)))
     for nm, text in (FILES[:7] if q else FILES):
